@@ -1,6 +1,51 @@
 import WhVerif.Util.Proto
+import WhVerif.Model.C14
+import WhVerif.Spec.C14
 namespace WhVerif.Driver.C14
-open Lean WhVerif.Proto
-/-- ops of property C14 are named `c14.<name>`; return `none` for ops that are not ours -/
-def handle (_op : String) (_j : Json) : Option Json := none
+open Lean WhVerif.Proto WhVerif.C14
+
+def strList? (j : Json) : Option (List String) := do (← asArr? j).mapM asStr?
+def boolList? (j : Json) : Option (List Bool) := do (← asArr? j).mapM asBool?
+
+def parseRead (j : Json) : Option Read := do
+  match ← asArr? j with
+  | [n, l] => pure ⟨← asStr? n, ← asNat? l⟩
+  | _ => none
+
+def errJson : Err → Json
+  | .valueError => Json.str "ValueError"
+  | .indexError => Json.str "IndexError"
+  | .keyError => Json.str "KeyError"
+  | .assertDuplicate => Json.str "AssertionError:duplicate"
+  | .assertNoKnown => Json.str "AssertionError:no-known"
+
+def passJson (o : Opts) (rows : List (List Nat)) (p : Pass) : Json :=
+  Json.mkObj [("written", ofList (fun k => ofNatList (written p k)) (List.range (o.ploidy + 1))),
+              ("hist", ofList ofNatList rows)]
+
+/-- `c14.split {ploidy, requested, add, discard, largest, rows, reads}` →
+`{cur: {written, hist} | {err}, fix: …, prescribed: [[outputs] per read]}` -/
+def handle (op : String) (j : Json) : Option Json :=
+  if op == "c14.split" then
+    let parsed : Option (Opts × List (List String) × List Read) := do
+      let o : Opts := { ploidy := ← getNat? j "ploidy", requested := ← boolList? (← getObj? j "requested"),
+                        addUntagged := ← getBool? j "add", discardUnknown := ← getBool? j "discard",
+                        onlyLargest := ← getBool? j "largest" }
+      let rows ← (← getList? j "rows").mapM strList?
+      let reads ← (← getList? j "reads").mapM parseRead
+      pure (o, rows, reads)
+    match parsed with
+    | none => some badInput
+    | some (o, rows, reads) =>
+      let cur := match splitCur o rows reads with
+        | .ok p => passJson o (histRowsCur o p) p
+        | .error e => Json.mkObj [("err", errJson e)]
+      let fix := match splitFix o rows reads with
+        | .ok p => passJson o (histRowsFix o p) p
+        | .error e => Json.mkObj [("err", errJson e)]
+      let pres := match processList o rows with
+        | .ok t => ofList (fun r => ofNatList (prescribed o t r)) reads
+        | .error _ => Json.null
+      some (Json.mkObj [("cur", cur), ("fix", fix), ("prescribed", pres)])
+  else none
 end WhVerif.Driver.C14
